@@ -58,10 +58,10 @@ func sameFeatureMeaning(what string, a, b gts.FeatureSlice, L int, circular bool
 	if len(a) != len(b) {
 		return viol("count", "%s: %d vs %d features", what, len(a), len(b))
 	}
-	bb := byLabel(b)
+	bb, aa := byLabel(b), byLabel(a)
 	for _, f := range a {
 		gg := bb[labelOf(f)]
-		if len(gg) != 1 {
+		if len(gg) != len(aa[labelOf(f)]) {
 			return viol("presence", "%s: feature %s present %d times", what, labelOf(f), len(gg))
 		}
 		x, ok1 := fromGts(f.Loc)
@@ -137,7 +137,7 @@ func c04Check(c c04Case) *Violation {
 	byl := byLabel(out.Features())
 	for _, f := range c.Feats {
 		gg := byl[f.label()]
-		if len(gg) != 1 {
+		if len(gg) != multOf(c.Feats, f) {
 			return viol("presence", "Rotate: feature %s present %d times", f.label(), len(gg))
 		}
 		if v := compareRotated(fmt.Sprintf("Rotate L=%d n=%d feature %s %s", L, c.N, f.label(), f.Loc), gg[0], f, L, c.N); v != nil {
@@ -187,7 +187,7 @@ func c04Check(c c04Case) *Violation {
 		bl := byLabel(pair.seq.Features())
 		for _, f := range c.Feats {
 			gg := bl[f.label()]
-			if len(gg) != 1 {
+			if len(gg) != multOf(c.Feats, f) {
 				return viol("law-presence", "%s: feature %s present %d times", pair.name, f.label(), len(gg))
 			}
 			if v := compareRotated(fmt.Sprintf("%s feature %s %s", pair.name, f.label(), f.Loc), gg[0], f, L, 0); v != nil {
@@ -291,7 +291,7 @@ func c04Gen(t *rapid.T) c04Case {
 	c := c04Case{L: L, N: n, B: b}
 	o := newOrigin(L, n)
 	cfg := locCfg{L: L, Hot: hotAround(L, o, 0), MaxDepth: 3, MaxParts: scopeParts(4), Ambig: true, Sites: true}
-	c.Feats = genFeats(t, cfg, drawCount(t, 0, 4, 9, "nfeat"), "f", true)
+	c.Feats = addTwins(t, genFeats(t, cfg, drawCount(t, 0, 4, 9, "nfeat"), "f", true), "f")
 	origins := []int{o, newOrigin(L, n+b)}
 	for i := range c.Feats {
 		fixed := uncrossAmbig(c.Feats[i].Loc, origins)
@@ -309,6 +309,10 @@ func TestC04(t *testing.T) {
 		return
 	}
 	rapidLargePart(t, c04Prop, st, pick(1500, 20000), c04Gen)
+	if t.Failed() {
+		return
+	}
+	rapidTwinsPart(t, c04Prop, st, pick(3000, 30000), c04Gen)
 	if t.Failed() {
 		return
 	}
